@@ -44,12 +44,22 @@ func (l *Lz4) Compress(data []byte) ([]byte, error) {
 }
 
 func (l *Lz4) Decompress(in []byte) ([]byte, error) {
-	out := make([]byte, 100*len(in))
-	n, err := lz4.UncompressBlock(in, out)
-	if err != nil {
-		return nil, err
+	// a block does not record its decompressed size and may expand up to 255 times:
+	// grow the buffer until the data fits
+	limit := 256*len(in) + 16
+	for size := 100 * len(in); ; size *= 2 {
+		if size > limit {
+			size = limit
+		}
+		out := make([]byte, size)
+		n, err := lz4.UncompressBlock(in, out)
+		if err == nil {
+			return out[:n], nil
+		}
+		if size >= limit {
+			return nil, err
+		}
 	}
-	return out[:n], nil
 }
 
 func (l *Lz4) GetCompressorType() CompressorType {
